@@ -425,6 +425,74 @@ class SCx:
         return bool(Or(self.re != 0, self.im != 0))
 
 
+class SPolar:
+    """
+    A complex number in polar form  c * u**k : real coefficient c (symbolic or concrete, any sign), u a fixed but arbitrary complex
+    number of modulus one that is not real, k an integer.  Every non-zero complex x is m*u (m > 0) for some such u, so an identity
+    proved for SPolar(m, 1) holds for all complex scalars -- without square roots: abs(c * u**k) = |c|.
+    Only products, quotients, conjugation, abs and comparison are defined (sums of different phases are not representable).
+    """
+    __slots__ = ('c', 'k')
+    pytype = complex
+
+    def __init__(self, c, k=1):
+        self.c, self.k = c, k
+
+    @staticmethod
+    def lift(x):
+        if isinstance(x, SPolar):
+            return x
+        if _is_numlike(x):
+            return SPolar(x, 0)
+        return None
+
+    def __repr__(self):
+        return f"<SPolar {self.c!r} * u**{self.k}>"
+
+    def __hash__(self):
+        raise Unsupported("hash of a symbolic complex value")
+
+    def conjugate(self):
+        return SPolar(self.c, -self.k)
+    conj = conjugate
+
+    def item(self):
+        return self
+
+    def __neg__(self):
+        return SPolar(-self.c, self.k)
+
+    def __mul__(self, o):
+        o = SPolar.lift(o)
+        return NotImplemented if o is None else SPolar(self.c * o.c, self.k + o.k)
+    __rmul__ = __mul__
+
+    def __truediv__(self, o):
+        o = SPolar.lift(o)
+        return NotImplemented if o is None else SPolar(self.c / o.c, self.k - o.k)
+
+    def __rtruediv__(self, o):
+        o = SPolar.lift(o)
+        return NotImplemented if o is None else SPolar(o.c / self.c, o.k - self.k)
+
+    def __abs__(self):
+        return abs(self.c)
+
+    def __eq__(self, o):
+        o = SPolar.lift(o)
+        if o is None:
+            return False
+        if self.k == o.k:
+            return self.c == o.c
+        return And(self.c == 0, o.c == 0)            # different phases: equal only if both vanish
+
+    def __ne__(self, o):
+        return Not(self.__eq__(o))
+
+    def __bool__(self):
+        return bool(self.c != 0)
+
+
 class SBool(Sym):
     pytype = bool
     __slots__ = ()
